@@ -517,6 +517,23 @@ deriving DecidableEq, Repr
             + _outbound(sm, rsm, harp))
 
 
+def _route_entry_identity() -> str:
+    """`route != default_route` in RouterARP compares RouteEntry objects: RouteEntry is a SimComponent, whose `uuid` field (a fresh uuid4 per
+    object) takes part in pydantic's field-wise `==`, and defines no `__eq__` — so a table entry SPELLED like the default entry is still
+    not equal to it and the look-ups tell them apart by origin, as the model's `bestOf` does."""
+    re_cls = class_def(parse(ROUTER), "RouteEntry")
+    if [ast.unparse(b) for b in re_cls.bases] != ["SimComponent"]:
+        raise ValueError(f"RouteEntry bases are {[ast.unparse(b) for b in re_cls.bases]}")
+    sc = class_def(parse("simulator/core.py"), "SimComponent")
+    uu = [ast.unparse(x) for x in sc.body if isinstance(x, ast.AnnAssign) and ast.unparse(x.target) == "uuid"]
+    if uu != ["uuid: str = Field(default_factory=lambda: str(uuid4()))"]:
+        raise ValueError(f"SimComponent.uuid is {uu}")
+    for c in (re_cls, sc):
+        if any(isinstance(n, ast.FunctionDef) and n.name in ("__eq__", "__hash__") for n in c.body):
+            raise ValueError(f"{c.name} defines its own equality")
+    return "/-- RouteEntry equality is object identity in effect (per-object uuid field, no __eq__) -/\ndef routeEntryEqualityIsIdentity : Bool := true\n"
+
+
 def emit() -> str:
     rt = parse(ROUTER)
     harp = class_def(parse(HOSTN), "HostARP")
@@ -539,6 +556,7 @@ def emit() -> str:
         _send_request(arp),
         _handlers(harp, rarp),
         _session(),
+        _route_entry_identity(),
     ]
     return """namespace Primaite.Gen.ForwardArp
 /-- what `find_best_route` gave the look-up: nothing, a table entry (its next hop), the default route (its next hop), or it raised -/
